@@ -604,11 +604,11 @@ func runModel(t *rapid.T, name string) {
 		t.Fatalf("%s: %v\nhistory: %s", name, err, strings.Join(hist, " "))
 	}
 	nt := ""
-	if reg.maxAge >= 3 && len(reg.entries) >= 3 {
+	if reg.maxAge >= 3 && reg.count() >= 3 {
 		nt = name + "|" + strings.Join(hist, ",")
 	}
 	lib.Ev.Class("model:" + name)
-	lib.Ev.Case(nt, func() any { return map[string]any{"model": name, "registered": len(reg.entries), "history": hist} })
+	lib.Ev.Case(nt, func() any { return map[string]any{"model": name, "registered": reg.count(), "history": hist} })
 }
 
 func TestModelParent(t *testing.T)      { rapid.Check(t, func(t *rapid.T) { runModel(t, "parent") }) }
